@@ -192,6 +192,18 @@ def run_case(case, rec, mon=None):
         fs = _probes(case)
         use_np = case.get("np_scalar", False)
         int_types = [int, np.int64, np.int32, np.int16, np.uint16, np.int8, np.uint8]
+        # frequencies near the top of the narrow integer types (the domain reaches 1e5 Hz)
+        for typed in (np.int16(30900), np.int16(32767), np.uint16(33000), np.uint16(64000), np.uint16(65535), np.int32(99999), np.uint8(255), np.int8(127)):
+            if float(typed) >= (params["low_hz"] if name == "octave" else 0.0):
+                rec.count("integer_typed_arguments")
+                try:
+                    sz = sc.hertz_to_scale(typed)
+                    back = float(sc.scale_to_hertz(sz))
+                    if not abs(back - float(typed)) <= RT * max(1.0, float(typed)):
+                        rec.violation({"what": "%s: scale_to_hertz(hertz_to_scale(%r)) = %r" % (name, typed, back), "check": "roundtrip_fsf", "cls": name, "params": params,
+                                       "arg": float(typed), "case": case})
+                except Exception as e:
+                    rec.violation({"what": "%s.hertz_to_scale(%r) raised %r" % (name, typed, e), "check": "raise", "cls": name, "params": params, "arg": float(typed), "case": case})
         if name != "octave":
             # 0 Hz is in the domain, however it is written
             for zero in (0, 0.0, np.float64(0), np.int64(0), np.array(0.0)):
